@@ -78,6 +78,10 @@ func (dn SuDnum) Compare(other Value) int {
 		if n, ok := dn.IfInt(); ok {
 			return cmp.Compare(n, i) // exact, agrees with Equal
 		}
+		if dn.IsInf() || dn.Exp() > 18 {
+			// beyond the int64 range (IfInt accepts every integer that fits)
+			return cmp.Compare(dn.Sign(), 0)
+		}
 	}
 	return dnum.Compare(dn.Dnum, ToDnum(other))
 }
